@@ -13,6 +13,7 @@ from multidict import MultiDict, MultiDictProxy
 from propcache.api import under_cached_property as cached_property
 
 from ._parse import (
+    IPVFUTURE,
     USES_AUTHORITY,
     SplitURLType,
     _check_netloc,
@@ -1507,7 +1508,7 @@ def _encode_host(host: str, validate_host: bool) -> str:
                 # A colon can only come from a bracketed host, which has to be
                 # an IP literal; keep the brackets of an IPvFuture address, the
                 # netloc could not be split again without them.
-                if not re.match(r"\Av[a-fA-F0-9]+\..+\Z", host):
+                if not IPVFUTURE.match(host):
                     raise ValueError(f"Invalid IPv6 address {host!r}") from None
                 return f"[{host.lower()}]"
         else:
